@@ -30,6 +30,39 @@ def TimeFrame.matches (t : TimeFrame) (weekday hour : Nat) : Bool :=
 def timeAllowed (entries : List TimeFrame) (weekday hour : Nat) : Bool :=
   entries.isEmpty || entries.any fun t => t.matches weekday hour
 
+/-! ### the local wall clock
+
+`TimeFrameAllows` hands `time.Now()` to `Match`; `Now()` carries `time.Local`, and `Weekday()` /
+`Hour()` of a `time.Time` are those of the instant's wall clock *in the location the value carries*.
+An instant is `unix` seconds since 1970-01-01T00:00:00Z (negative before), the zone is `offset`
+seconds east of UTC at that instant (any integer: whole hours, :30/:45 zones, historical LMT). -/
+
+/-- `Time.Weekday()`: day number of the local wall clock, Sunday = 0 (1970-01-01 was a Thursday) -/
+def localWeekday (unix offset : Int) : Nat := (((unix + offset) / 86400 + 4) % 7).toNat
+
+/-- `Time.Hour()`: hour of the local wall clock, 0-23 -/
+def localHour (unix offset : Int) : Nat := (((unix + offset) % 86400) / 3600).toNat
+
+/-- `TimeFrameEntry.Match(t)` for `t` = instant `unix` carried in a zone `offset` seconds east -/
+def TimeFrame.matchesAt (t : TimeFrame) (unix offset : Int) : Bool :=
+  t.matches (localWeekday unix offset) (localHour unix offset)
+
+/-- the time-frame control at instant `unix` on a machine whose local zone is `offset` seconds east -/
+def timeAllowedAt (entries : List TimeFrame) (unix offset : Int) : Bool :=
+  timeAllowed entries (localWeekday unix offset) (localHour unix offset)
+
+/-! ### what a `Proxy-Authorization` value says (RFC 7617), independent of `parseBasicAuth` -/
+
+/-- the credentials string carried by a field value: scheme `Basic` in any case, one space, the
+    rest strict standard base64 -/
+def basicPayload (v : Bytes) : Option Bytes :=
+  if v.length < 6 || !Ascii.eqFold (v.take 6) (bs "Basic ") then none else b64Decode (v.drop 6)
+
+/-- user-id and password of a credentials string: everything before / after the FIRST colon -/
+def splitFirstColon : Bytes → Option (Bytes × Bytes)
+  | [] => none
+  | c :: cs => if c == 58 then some ([], cs) else (splitFirstColon cs).map fun up => (c :: up.1, up.2)
+
 /-- the four controls in the order `middlewareStack` adds them to `topg` -/
 inductive Control where
   | timeFrame | basicAuth | localhost | denyDomains
